@@ -23,8 +23,9 @@ RULE = ('In situ only: each run drives Distributed Shampoo (jit / simulated '
 COMPONENTS = common.DS_COMPONENTS
 ASSUMPTIONS = [
     'restricted reach: only matrices the optimizer produces from simulated '
-    'gradient histories (n<=10 after blocking, float32 statistics); direct '
-    'calls with float64 inputs and LOBPCG deflation are not decided',
+    'gradient histories (n<=16 after blocking, float32 statistics); direct '
+    'calls with float64 inputs are not decided; LOBPCG deflation only with '
+    'k in {1,2} on 12..16-dimensional statistics',
     'Newton: the ridge is reconstructed from the reported max_eigen_value and '
     'total_retries; eigh: minimised over the admissible ridge interval',
     'vacuous (not counted as pass) when the regularised input is singular, '
@@ -45,7 +46,19 @@ def generate(seed, idx, tier):
                                          (5, 1), (6, 1), (7, 1), (8, 1)])
   cfg['preconditioning_compute_steps'] = pick(rng, [1, 1, 2])
   cfg = common.constrain(cfg, mode, quant, x64)
+  lob = rng.random() < 0.12
   tree = ds_gen.fix_tree_for_config(rng, ds_gen.gen_tree(rng), cfg)
+  if lob:
+    # LOBPCG-deflated Newton: needs n > 5k for every (padded) statistic
+    cfg['lobpcg_topk_precondition'] = pick(rng, [1, 1, 2])
+    cfg['eigh'] = False
+    cfg['block_size'] = 16
+    cfg.pop('merge_small_dims_block_size', None)
+    cfg['best_effort_shape_interpretation'] = True
+    cfg['precondtioner_type'] = 1
+    cfg.pop('skip_preconditioning_dim_size_gt', None)
+    tree = [[pick(rng, [4, 6, 8]), pick(rng, [3, 4, 5])]
+            for _ in range(pick(rng, [1, 2]))]
   if mode == 'sharded':
     n = shp.tree_layout(tree, cfg)['n_stats']
     if not common.sharded_mesh_ok(n, D, mesh):
@@ -55,7 +68,7 @@ def generate(seed, idx, tier):
   ops = common.gen_history(rng, cfg, len(tree), T,
                            0.0 if not faulted else 1.0 / rng.randrange(4, 12),
                            scale_jumps=0.4, jumps=0.0)
-  return {'system': 'ds', 'class': f"{mode}_{'eigh' if cfg['eigh'] else 'newton'}"
+  return {'system': 'ds', 'class': f"{mode}_{'lobpcg' if lob else 'eigh' if cfg['eigh'] else 'newton'}"
           f"{'_x64' if x64 else '_f32'}", 'x64': x64, 'mode': mode, 'D': D,
           'mesh': mesh, 'config': cfg, 'tree': tree, 'lr': ds_gen.gen_lr(rng),
           'param_seed': rng.randrange(1000), 'ops': ops,
